@@ -66,7 +66,23 @@ def enc_maxnb(d):
     return "(Some (MStr %s %d))" % (z(v[1]), ord(v[2]))
 
 
+NAMED = {"seq", "thr", "loky", "mp"}
+
+
+def by_name(d):
+    b_ = d.get("backend")
+    return bool(b_ and b_[0] == "inst" and b_[3] and b_[2] is None and b_[1] in NAMED)
+
+
 def enc_fields(d, p):
+    base = enc_fields_(d, p)
+    if p != "s":
+        return base
+    return base[:-2] + "; s_byname := %s; s_inner := %s; s_params := %s |}" % (
+        "true" if by_name(d) else "false", oz(d, "inner"), "true" if d.get("params") else "false")
+
+
+def enc_fields_(d, p):
     return ("{| %s_backend := %s; %s_njobs := %s; %s_verbose := %s; %s_temp := %s; %s_maxnb := %s; %s_mmap := %s; "
             "%s_prefer := %s; %s_require := %s |}" % (
                 p, enc_bspec(d["backend"]) if "backend" in d else "None", p, enc_njobs(d), p, oz(d, "verbose"),
@@ -172,7 +188,7 @@ def canon_obs(q, r):
 def eff_spec(mgr, spec):
     """the keys a manager sets, as the documentation of parallel_config / parallel_backend states them"""
     if mgr == "config":
-        return spec
+        return {k: v for k, v in spec.items() if k in SETTINGS}   # inner_max_num_threads / backend params are not settings
     d = {"backend": spec["backend"]}
     d["n_jobs"] = spec.get("n_jobs", [-1])
     return d
@@ -326,16 +342,33 @@ def oracle_active(q, stack, r, dk="loky"):
     return None, None
 
 
+def expect_reject(mgr, spec):
+    """the documented argument rules of parallel_config / parallel_backend, stated directly: which calls are refused"""
+    b_ = spec.get("backend")
+    if b_ is None:
+        return "ValueError" if ("inner" in spec or spec.get("params")) else None
+    if b_[0] == "invalid":
+        return "ValueError"
+    if spec.get("params") and not by_name(spec):
+        return "ValueError"          # backend_params are only supported when backend is a string
+    if "inner" in spec and b_[1] != "loky":
+        return "AssertionError"      # only LokyBackend accepts inner_max_num_threads
+    return None
+
+
 def oracle_blocks(blocks):
     """restore-on-exit and update-with-explicit-keys, per block record"""
     for b in blocks:
         if b["post"] != b["pre"]:
             return "configuration after the block differs from the one before it (exit: %s): before %s after %s" % (
                 b["exit"], b["pre"], b["post"])
+        rej = expect_reject(b["mgr"], b["spec"])
         if b["in"] is None:
-            if not (b["exit"] or "").startswith("construct-raised:ValueError") or b["spec"].get("backend", [""])[0] != "invalid":
-                return "manager construction failed unexpectedly: %s" % b["exit"]
+            if rej is None or b["exit"] != "construct-raised:" + rej:
+                return "manager construction %s: %s (expected %s)" % (b["spec"], b["exit"], rej or "success")
             continue
+        if rej is not None:
+            return "a construction that must be refused (%s) was accepted: %s" % (rej, b["spec"])
         exp = dict(b["pre"])
         for k, v in eff_spec(b["mgr"], b["spec"]).items():
             if k == "backend":
@@ -395,7 +428,7 @@ class Walk:
             if "raise" in r:
                 raise Walk.Exc()
         elif k == "with":
-            if p[2].get("backend", [""])[0] == "invalid":
+            if expect_reject(p[1], p[2]) is not None:
                 raise Walk.Exc()
             self.run(p[3], block_fail)
 
@@ -443,6 +476,15 @@ RED_SPECS = [
     ("config", {"backend": ["invalid"]}),
     ("backend", {"backend": ["inst", "thr", None, True]}),
     ("backend", {"backend": ["inst", "loky", 1, False], "n_jobs": [2]}),
+    # refused constructions that carry real settings (nothing of them may be installed)
+    ("config", {"inner": 2, "n_jobs": [3], "verbose": 7, "mmap": 4}),
+    ("config", {"params": True, "n_jobs": [2], "prefer": 1, "temp": 2}),
+    ("config", {"backend": ["inst", "thr", None, False], "params": True, "n_jobs": [5], "require": 1}),
+    ("config", {"backend": ["inst", "thr", None, True], "inner": 2, "n_jobs": [2]}),
+    ("backend", {"backend": ["invalid"], "n_jobs": [2]}),
+    # accepted ones with inner_max_num_threads / backend params
+    ("config", {"backend": ["inst", "loky", None, True], "inner": 2, "n_jobs": [2]}),
+    ("backend", {"backend": ["inst", "thr", None, True], "params": True}),
 ]
 RED_ARGS = [
     {}, {"n_jobs": [4]}, {"n_jobs": [None]}, {"backend": ["inst", "loky", None, True]},
@@ -474,7 +516,8 @@ def gen_exhaustive(quick):
         for j, (m2, s2) in enumerate(specs):
             for exc in ((False, True) if not quick or (i + j) % 3 == 0 else (False,)):
                 inner = seqs(all_obs() + ([["raise"]] if exc else []))
-                body = seqs(all_obs() + [["try", ["with", m2, s2, inner]]] + [tobs(["config"]), tobs(["parallel", {}])])
+                w2 = ["with", m2, s2, inner] + (["gen"] if (i + 2 * j) % 5 == 0 and not exc else [])
+                body = seqs(all_obs() + [["try", w2]] + [tobs(["config"]), tobs(["parallel", {}])])
                 progs.append(seqs([tobs(["config"]), ["try", ["with", m1, s1, body]], tobs(["config"]),
                                    tobs(["parallel", {}])]))
     return progs
@@ -491,6 +534,10 @@ def rnd_spec(rng, mgr):
             d["backend"] = ["inst", kind, lvl, rng.random() < 0.6]
     if rng.random() < 0.45:
         d["n_jobs"] = [rng.choice([1, 2, 3, 7, -1, -2, 0, None])]
+    if rng.random() < 0.12:
+        d["inner"] = rng.choice([1, 2, 4])
+    if rng.random() < 0.12:
+        d["params"] = True
     if mgr == "backend":
         return d
     for k, vals in (("verbose", [0, 5, 10, 49, 50, 51, 60, 100, -3]), ("temp", [0, 1, 2]), ("mmap", [0, 1, 2, 3, 4]),
@@ -505,6 +552,8 @@ def rnd_spec(rng, mgr):
 
 def rnd_args(rng):
     d = rnd_spec(rng, "config")
+    d.pop("inner", None)
+    d.pop("params", None)
     if "n_jobs" in d and rng.random() < 0.3:
         del d["n_jobs"]
     return d
@@ -530,6 +579,8 @@ def rnd_prog(rng, depth, maxdepth):
         elif r < 0.9:
             mgr = "backend" if rng.random() < 0.2 else "config"
             w = ["with", mgr, rnd_spec(rng, mgr), rnd_prog(rng, depth + 1, maxdepth)]
+            if rng.random() < 0.2:
+                w.append("gen")      # leave the block through a closed generator
             items.append(["try", w] if rng.random() < 0.6 else w)
         else:
             items.append(["raise"] if rng.random() < 0.5 else ["try", ["raise"]])
@@ -659,7 +710,7 @@ Import ListNotations. Open Scope Z_scope."""
 
 def gen_flat(rng, quick):
     """(default backend, chain of valid blocks outermost first, query)"""
-    specs = [sp for sp in RED_SPECS if sp[1].get("backend", [""])[0] != "invalid"]
+    specs = [sp for sp in RED_SPECS[:16] if expect_reject(*sp) is None]
     out = []
     for dk in ("loky", "thr", "seq", "mp"):
         chains = [[]] + [[s1] for s1 in specs] + [[s1, s2] for s1 in specs for s2 in specs if rng.random() < (0.12 if quick else 0.6)]
